@@ -225,6 +225,14 @@ func c15Case(env *Env, tape *sim.Tape) *CaseOut {
 			}
 			return s + sp(), true
 		case shape == 7:
+			if tape.Draw(4) == 0 {
+				// long but well-formed: hundreds of blanks or dozens of parameters
+				s := strings.Repeat(" ", 200+tape.Draw(200)) + base
+				for i := 0; i < 30+tape.Draw(30); i++ {
+					s += "; p" + fmt.Sprint(i) + "=v" + fmt.Sprint(i)
+				}
+				return s, true
+			}
 			return sp() + base + sp(), true
 		default:
 			// outside the grammar: only "no panic, Match and Minify agree" is judged
